@@ -121,7 +121,12 @@ func (g *ogen) print() onode {
 			want = "e<\"&"
 		}
 		n := "nv_" + k
-		switch r.Intn(5) {
+		switch r.Intn(7) {
+		case 5, 6:
+			// string concatenation formats its right operand like printing does (fmt.Sprint)
+			if k != "float" {
+				return onode{src: "{{ \"p:\" + " + n + " }}", out: g.escape("p:" + want), failOff: -1}
+			}
 		case 0:
 			return onode{src: "{{ " + n + " | raw }}", out: want, failOff: -1}
 		case 1:
@@ -194,6 +199,8 @@ func (g *ogen) failing() onode {
 		"{{ cat(\"a\", _) }}", "{{ cat(\"a\", \"b\", _) }}", "{{ add3(1, _, 2) }}", "{{ add3(1, 2) }}", "{{ add3(1, 2, 3, 4) }}", "{{ sa() }}", "{{ st.A() }}",
 		"{{ ident(n) }}", "{{ sa | nope }}", "{{ upper(ia, ia) }}", "{{ repeat(sa, sa) }}", "{{ len() }}", "{{ map(\"k\") }}", "{{ ints(3, 1) }}", "{{ li[sa] }}", "{{ m.k.x.y }}", "{{ -sa }}",
 		"{{ ia % zero }}", "{{ ia % 0.5 }}", "{{ ia % -0.25 }}", "{{ ia / \"0\" }}", "{{ ia % \"0\" }}", "{{ ia % t }}", "{{ ia / t }}", "{{ 1.5 % 0.9 }}", "{{ ia / (zero * ib) }}", "{{ n.x }}", "{{ li[-1] }}", "{{ sa[5:2] }}",
+		"{{ includeIfExists(\"/obroken.jet\") }}", "{{if includeIfExists(\"/obroken.jet\")}}DEAD{{end}}", "{{ includeIfExists(\"/obroken2.jet\", ia) }}", "{{include \"/obroken.jet\"}}", "{{ exec(\"/obroken2.jet\") }}",
+		"{{ li[bu] }}", "{{ ls[bv] }}", "{{ li[bu - ub] }}", "{{ sa[bv] }}",
 		"{{ m[n] }}", "{{ st[n] }}", "{{ li[n] }}", "{{ ms[n].Name }}", "{{ m[st.I] }}", "{{ li[1:4] }}", "{{ li[:5] }}", "{{ ls[0:4] }}", "{{ len(li[:4]) }}", "{{ li[4:] }}", "{{range li[2:4]}}x{{end}}", "{{ li[3] }}", "{{ ls[3] }}"})
 	if g.named && g.r.Chance(35) {
 		act = g.r.Pick([]string{"{{ arr[0:4] }}", "{{ arr[3] }}", "{{ arr[2:1] }}", "{{ parr[0:1] }}", "{{ nf(\"a\") }}", "{{ \"a\" | nf }}", "{{ hold.F(1) }}", "{{ njf(1) }}", "{{ 1 | njf }}",
@@ -347,6 +354,20 @@ func (g *ogen) node(d int, allowFail bool) onode {
 		}
 		return cat(wrap("{{try}}"+body.src+f.src+g.dead(0).src+"{{catch"+cv+"}}", c, "{{end}}"), onode{src: probe, out: probeOut, failOff: -1})
 	case 8: // include: renders in place
+		if r.Chance(20) {
+			// a template that exists but does not parse is a failure however it is included; one that
+			// does not exist is a failure for include and "false, nothing rendered" for includeIfExists
+			cs := [][2]string{
+				{"{{try}}A{{ includeIfExists(\"/obroken.jet\") }}DEAD{{catch}}c{{end}}", "c"},
+				{"{{try}}A{{if includeIfExists(\"/obroken2.jet\")}}DEAD{{else}}DEAD{{end}}{{catch}}c{{end}}", "c"},
+				{"{{try}}{{include \"/obroken.jet\"}}DEAD{{catch}}c{{end}}", "c"},
+				{"{{try}}{{include \"/oabsent.jet\"}}DEAD{{catch}}c{{end}}", "c"},
+				{"{{if includeIfExists(\"/oabsent.jet\")}}DEAD{{else}}n{{end}}", "n"},
+				{"[{{ includeIfExists(\"/oabsent.jet\", ia) }}]", "[]"}, // the result renders as nothing
+			}
+			c := cs[r.Intn(len(cs))]
+			return onode{src: c[0], out: c[1], failOff: -1}
+		}
 		g.nfile++
 		name := fmt.Sprintf("/inc%d.jet", g.nfile)
 		body := g.seq(d-1, false)
@@ -495,7 +516,21 @@ func (g *ogen) node(d int, allowFail bool) onode {
 	case 16: // yield arguments are evaluated in the caller's scope; defaults may use supplied parameters
 		g.nblock++
 		bn := fmt.Sprintf("pblk%d", g.nblock)
-		switch r.Intn(3) {
+		switch r.Intn(5) {
+		case 3: // ... with the caller's '.', also when the yield names a context for the block
+			g.lib += "{{block " + bn + "(p=0)}}({{p}}|{{.}}){{end}}"
+			out := ""
+			for _, e := range []int{3, 0, 7} {
+				out += "(" + g.E(e) + "|" + g.escape("ctx<") + ")"
+			}
+			return onode{src: "{{range li}}{{yield " + bn + "(p=.) \"ctx<\"}}{{end}}", out: out, failOff: -1}
+		case 4: // ... and so are the defaults of parameters the yield leaves out
+			g.lib += "{{block " + bn + "(p=., q=\"d\")}}({{p}}|{{q}}|{{.}}){{end}}"
+			out := ""
+			for _, e := range []string{"a<", "", "b"} {
+				out += "(" + g.escape(e) + "|" + g.escape("d") + "|" + g.E(g.intVals["ia"]) + ")"
+			}
+			return onode{src: "{{range ls}}{{yield " + bn + "() ia}}{{end}}", out: out, failOff: -1}
 		case 0:
 			g.lib += "{{block " + bn + "(sa=\"dflt\", ia=0)}}({{sa}}|{{ia}}){{end}}"
 			return onode{src: "{{yield " + bn + "(ia=ia, sa=sa)}}", out: "(" + g.escape(g.strVals["sa"]) + "|" + g.E(g.intVals["ia"]) + ")", failOff: -1}
@@ -572,6 +607,10 @@ func genOracleProgram(r *h.Rand, flavor string) (*prog, *sx.Sexp) {
 		vars.Add(bind("arr", gov("arr3"))).Add(bind("parr", gov("parr3"))).Add(bind("nf", gov("nilfunc"))).Add(bind("njf", gov("niljfunc"))).
 			Add(bind("sch", gov("sendch"))).Add(bind("rch", gov("recvch"))).Add(bind("hold", gov("holder")))
 	}
+	vars.Add(bind("bu", vUint(9223372036854775808))).Add(bind("bv", vUint(18446744073709551615))).Add(bind("ub", vUint(1)))
+	// templates that exist but do not parse: including them is a failure, however it is spelled
+	p.files["/obroken.jet"] = "x{{if}}"
+	p.files["/obroken2.jet"] = "{{extends \"/onowhere.jet\"}}"
 	vars.Add(bind("trimSpace", vFunc("shout")))
 	p.globals.Add(bind("html", vFunc("shout")))
 	p.vars = vars
